@@ -198,14 +198,15 @@ structure FEntry where
   num : Int
   t : ArrType
   text : List Char            -- what `loadData` reads for this array: size on disk + 1 bytes
+  pos : Nat                   -- `ifStreamPos`: offset of the first data character
   deriving DecidableEq, Repr
 
 def padTo (n : Nat) (s : List Char) : List Char := s ++ List.replicate (n - s.length) (Char.ofNat 0)
 
 /-- `EclFile::load`: `while (!isEOF)` — `isEOF` reads four bytes. -/
-def loadIndex : Nat → List Char → Option (List FEntry)
-  | 0, _ => none
-  | fuel + 1, s =>
+def loadIndex : Nat → Nat → List Char → Option (List FEntry)
+  | 0, _, _ => none
+  | fuel + 1, off, s =>
     if s.length < 4 then some []
     else
       let line := s.takeWhile (· ≠ '\n')
@@ -216,9 +217,10 @@ def loadIndex : Nat → List Char → Option (List FEntry)
         if t = .mess ∧ 0 < num then none          -- sizeOnDiskFormatted throws
         else
           let sz := if 0 < num then sizeOnDiskFormatted num.toNat t else 0
-          match loadIndex fuel (rest.drop sz) with
+          let pos := off + (s.length - rest.length)
+          match loadIndex fuel (pos + sz) (rest.drop sz) with
           | none => none
-          | some es => some (⟨name, num, t, padTo (sz + 1) (rest.take (sz + 1))⟩ :: es)
+          | some es => some (⟨name, num, t, padTo (sz + 1) (rest.take (sz + 1)), pos⟩ :: es)
 
 /-- `EclFile::loadData(arrIndex)` / `get<T>`; a negative count ends in `reserve`/allocation
 throwing; a MESS entry has no data to ask for. -/
@@ -267,7 +269,7 @@ def encodeFmtFile (as : List FArr) : List Char := as.flatMap FArr.encode
 
 /-- the whole reader: index, then every array. -/
 def decodeFmtFile (s : List Char) : Option (List (List Char × ArrType × FData)) :=
-  match loadIndex (s.length + 1) s with
+  match loadIndex (s.length + 1) 0 s with
   | none => none
   | some es => mapM' (fun e => (loadEntry e).map fun d => (e.name, e.t, d)) es
 
